@@ -85,6 +85,9 @@ pub fn run_case_seeded(case: &Case, hash_seed: u64, timeout: Duration) -> Option
                     Some(p) => {
                         let mut sg = sig1("location", loc_short.clone());
                         sg.insert("message".into(), short.clone().into());
+                        if let Case::Dsp(_) = &case2 {
+                            sg.extend(dsp::panic_sig());
+                        }
                         ctx.violate_sig(p, "panic", &loc_short, format!("panic at {loc_short}: {short}"), sg);
                     }
                     None => {
@@ -489,6 +492,33 @@ fn check(prop: &str, tier: Tier, runs_override: Option<u64>, jobs: usize) -> i32
         }
     }
 
+    // open findings: the witness is replayed on every check, so that the KNOWN-FINDING line appears on the
+    // unchanged tree whether or not this batch happened to sample an instance; a witness that no longer
+    // fails is reported on stderr (the finding may have been repaired) and suppresses nothing
+    let mut a = a;
+    for f in ff.findings.iter().filter(|f| f.property == prop && f.status == "open") {
+        if a.known.contains_key(&f.id) {
+            continue;
+        }
+        if let Some(w) = &f.witness {
+            let p = format!("{}/{}", root(), w);
+            match replay_file(&p, false) {
+                ReplayOutcome::Reproduced(v) => {
+                    if findings::match_open(&ff, &v).map(|m| m.id == f.id).unwrap_or(false) {
+                        a.known.insert(f.id.clone(), (0, f.what.clone(), serde_json::json!({"witness": w, "violation": v})));
+                    } else {
+                        eprintln!("altsim: witness {p} of open finding {} fails differently now: {} / {}", f.id, v.monitor, v.clause);
+                    }
+                }
+                ReplayOutcome::Clean => eprintln!("altsim: note: witness {p} of open finding {} no longer fails on this tree", f.id),
+                ReplayOutcome::Error(e) => {
+                    eprintln!("altsim: cannot replay witness {p}: {e}");
+                    return 2;
+                }
+            }
+        }
+    }
+
     let mut faults = BTreeMap::new();
     let mut probes = BTreeMap::new();
     let mut stats = BTreeMap::new();
@@ -549,7 +579,7 @@ fn check(prop: &str, tier: Tier, runs_override: Option<u64>, jobs: usize) -> i32
     }
     println!("runs={} nontrivial={} distinct_nontrivial={} sim_seconds={:.0} wall={:.1}s trace={:016x}", a.runs, a.nontrivial, a.nontrivial_classes.len(), a.sim_s, wall, a.trace_acc);
     for (id, (n, what, _)) in &a.known {
-        println!("KNOWN-FINDING: property={prop} {what} [finding {id}, {n} instance(s) in this run]");
+        println!("KNOWN-FINDING: property={prop} {what} [finding {id}, {n} instance(s) in this batch{}]", if *n == 0 { ", witness replayed" } else { "" });
     }
     if !a.harness_errors.is_empty() {
         for e in a.harness_errors.iter().take(5) {
@@ -604,6 +634,9 @@ fn replay_file(path: &str, verbose: bool) -> ReplayOutcome {
         }
         for v in &ctx.viol {
             println!("  observed: {} {} / {} @event {} [{}]: {}", v.property, v.monitor, v.clause, v.event, v.layer, v.detail);
+            if !v.sig.is_empty() {
+                println!("    sig: {}", serde_json::to_string(&v.sig).unwrap_or_default());
+            }
         }
     }
     match find_same(&ctx, &rf.violation.key()) {
@@ -741,6 +774,21 @@ fn main() {
             let rf = ReplayFile { property: prop.clone(), verif_seed: verif_seed(), run, violation: Violation { property: prop.clone(), monitor: "dump".into(), clause: "dump".into(), layer: "".into(), event: 0, detail: "".into(), sig: Sig::new() }, minimised_from_size: None, case };
             println!("{}", write_replay(&rf));
             0
+        }
+        "taconite" => {
+            let parse = |s: Option<&String>| -> Vec<f64> { s.map(|s| s.split(',').filter(|x| !x.is_empty()).map(|x| x.parse().unwrap()).collect()).unwrap_or_default() };
+            match dsp::taconite(&parse(args.get(2)), &parse(args.get(3))) {
+                Ok(v) => {
+                    for (c, d) in &v {
+                        println!("violation: {c}: {d}");
+                    }
+                    if v.is_empty() { 0 } else { 1 }
+                }
+                Err(e) => {
+                    eprintln!("taconite: {e:#}");
+                    2
+                }
+            }
         }
         "selftest" => match args.get(2).map(|s| s.as_str()) {
             Some("hashseed") => {
